@@ -133,7 +133,10 @@ func (a Tuple) M__iadd__(other Object) (Object, error) {
 }
 
 func (l Tuple) M__mul__(other Object) (Object, error) {
-	if b, ok := convertToInt(other); ok {
+	if b, ok, err := sequenceRepeatCount(other); ok {
+		if err != nil {
+			return nil, err
+		}
 		m := len(l)
 		if b <= 0 || m == 0 {
 			// nothing to repeat (and int(b) * m may not overflow)
